@@ -42,6 +42,9 @@ type Case struct {
 	Ops      []ops.Op        `json:"ops,omitempty"`
 	OpenFile bool            `json:"open_file,omitempty"` // Open(path) instead of OpenFromMemory
 	SaveFile bool            `json:"save_file,omitempty"` // Save(path) instead of ToBytes
+	// TextForms names the extra parts whose XML text was re-spelled and how ("footnotes:crlf"); informative (labels),
+	// the re-spelled text itself is in Pkg.Parts[i].XML
+	TextForms []string `json:"text_forms,omitempty"`
 }
 
 // edit ops: what the design lists (append paragraph/heading/table, images, header/footer, list item,
@@ -106,7 +109,8 @@ func fmtOfExt(ext string) string {
 // body, act on elements appended earlier, or do not touch the body at all.
 var bodyNeutral = map[string]bool{"header": true, "footer": true, "headerpn": true, "footerpn": true, "fheader": true, "ffooter": true, "difffirst": true,
 	"notecfg": true, "pagesize": true, "orient": true, "margins": true, "custompage": true, "props": true, "title": true, "author": true, "save": true, "reopen": true, "tpldoc": true,
-	"customstyle": true, "smexists": true, "smget": true, "small": true, "sminherit": true, "smquick": true, "smquickall": true}
+	"customstyle": true, "smexists": true, "smget": true, "small": true, "sminherit": true, "smquick": true, "smquickall": true,
+	"pagesettings": true, "notecfgnil": true, "hfbadtype": true}
 var bodyRemoving = map[string]bool{"rmparaat": true, "rmelemat": true}
 
 func genCase(t *rapid.T) Case {
@@ -132,6 +136,36 @@ func genCase(t *rapid.T) Case {
 			o := ops.Op{K: rapid.SampledFrom(lookupKinds).Draw(t, "lookup"), S: []string{rapid.SampledFrom(cfg.StyleIDs).Draw(t, "lookupid")}}
 			at := rapid.IntRange(0, len(c.Ops)).Draw(t, "lookupat")
 			c.Ops = append(c.Ops[:at], append([]ops.Op{o}, c.Ops[at:]...)...)
+		}
+	}
+	// calls the library may reject (unknown note id, index out of range, bytes that are no image, header/footer type
+	// that is none, page settings out of range ...), anywhere in the history, also as the only "edit"
+	if rapid.SampledFrom([]bool{false, true}).Draw(t, "locals") {
+		n := rapid.IntRange(1, 3).Draw(t, "nlocals")
+		needTable := false
+		for i := 0; i < n; i++ {
+			o := genLocal(t)
+			at := rapid.IntRange(0, len(c.Ops)).Draw(t, "localat")
+			c.Ops = append(c.Ops[:at], append([]ops.Op{o}, c.Ops[at:]...)...)
+			needTable = needTable || o.K == "cellimgbad"
+		}
+		if needTable { // the cell call aims at a table the history appended itself
+			c.Ops = append([]ops.Op{{K: "table", I: []int{2, 2, 0}}}, c.Ops...)
+		}
+	}
+	// the XML text of the extra parts, written the way other producers write it: without declaration, declaration and
+	// root on one line, CRLF, byte order mark, white space before the end tag of the root, newline after it
+	if rapid.SampledFrom([]bool{false, true, true}).Draw(t, "respell") {
+		for i, pt := range c.Pkg.Parts {
+			if pt.XML == "" || pt.Img != nil || pt.Raw != nil {
+				continue
+			}
+			if f := rapid.SampledFrom(textForms).Draw(t, "textform"); f != "" {
+				if s := respell(pt.XML, f); s != pt.XML {
+					c.Pkg.Parts[i].XML = s
+					c.TextForms = append(c.TextForms, pt.Kind+":"+f)
+				}
+			}
 		}
 	}
 	// the package brings header/footer parts of its own (named header<N>.xml / footer<N>.xml like the library's): set a
@@ -351,6 +385,10 @@ func run(c Case) *kit.Result {
 			break
 		}
 	}
+	for _, tf := range c.TextForms {
+		res.Label("pkg:text:" + tf[strings.Index(tf, ":")+1:])
+		res.Label("pkg:text:respelled")
+	}
 	pb := c.Pkg.BytesMath() // == Bytes() for a package without formulas
 	P, err := opc.Read(pb)
 	if err != nil || P.CTErr != nil {
@@ -414,26 +452,19 @@ func run(c Case) *kit.Result {
 	n5 := "equal"
 	var shape []string
 	imagesAdded := 0
+	rejected := 0
+	var accepted []ops.Op // the calls the library accepted, in order: only these are edits
 	for i, op := range c.Ops {
 		res.Label("op:" + op.K)
-		for _, g := range regenerated(op, hf) {
-			G[g] = true
-		}
-		if extendsStyles[op.K] {
-			Ext["word/styles.xml"] = true
-		}
-		switch {
-		case bodyRemoving[op.K]:
-			n5 = "skip"
-		case !bodyNeutral[op.K] && n5 == "equal":
-			n5 = "prefix"
-		}
 		replaced := x.Replaced
 		var e error
 		p, st := kit.Try(func() {
-			if isLookup(op.K) {
+			switch {
+			case isLookup(op.K):
 				doLookup(x.Doc, op)
-			} else {
+			case isLocal(op.K):
+				e = doLocal(x, op)
+			default:
 				e = x.Do(op)
 			}
 		})
@@ -447,10 +478,42 @@ func run(c Case) *kit.Result {
 			return res
 		}
 		out := "ok"
-		if e != nil {
+		switch {
+		case e == errNoTarget:
+			out = "none"
+		case e != nil:
 			out = "err"
 		}
 		shape = append(shape, op.K+":"+out)
+		switch out {
+		case "ok":
+			// an accepted call is an edit: what it rewrites by design joins the regenerated set
+			accepted = append(accepted, op)
+			for _, g := range regenerated(op, hf) {
+				G[g] = true
+			}
+			for _, g := range regeneratedLocal(op, hf) {
+				G[g] = true
+			}
+			if extendsStyles[op.K] {
+				Ext["word/styles.xml"] = true
+			}
+			switch {
+			case bodyRemoving[op.K]:
+				n5 = "skip"
+			case !bodyNeutral[op.K] && n5 == "equal":
+				n5 = "prefix"
+			}
+		case "err":
+			// a rejected call is no edit: nothing joins the regenerated set, no new part is explained by it and a
+			// rejected removal removes nothing, so the text clause stays in force. (A rejected call that appends is
+			// not held to "equal": the statement speaks of text that is lost.)
+			res.Label("rejected:" + op.K)
+			rejected++
+			if !bodyNeutral[op.K] && !bodyRemoving[op.K] && n5 == "equal" {
+				n5 = "prefix"
+			}
+		}
 		x.Saves = nil
 		if x.Replaced != replaced {
 			markOld() // a new document object: everything in it counts as existing content
@@ -470,6 +533,15 @@ func run(c Case) *kit.Result {
 				}
 			}
 			x.Tables = ts
+		}
+	}
+	if rejected > 0 {
+		res.Label("edits:some-rejected")
+		if len(accepted) == 0 {
+			res.Label("edits:all-rejected")
+		}
+		if c.Pkg.Has(foreign.FNotes) && hasOp(c, "rmfootnote", "rmendnote") {
+			res.Label("edits:note-removal-on-package-with-notes")
 		}
 	}
 	if len(c.Ops) == 0 {
@@ -550,6 +622,20 @@ func run(c Case) *kit.Result {
 			res.Fail("C04.N1", "part %q of the opened package is missing after save", name)
 		case !bytes.Equal(got, P.Parts[name]):
 			res.Fail("C04.N1", "part %q changed: %d bytes before, %d after", name, len(P.Parts[name]), len(got))
+		}
+	}
+	// ---- N1.new: a part that was not in the opened package is there because an ACCEPTED call creates it (a picture
+	// its media part, a header/footer call its part, a list call the numbering part, ...) or because the library writes
+	// it into every package it saves; a rejected call leaves no part behind
+	res.Eval("C04.N1.new")
+	for _, name := range Q.SortedNames() {
+		if _, had := P.Parts[name]; had {
+			continue
+		}
+		if why := newPartExplained(name, P, Q, accepted, Ext); why == "" {
+			ct, hasCT := Q.ContentTypeOf(name)
+			res.Fail("C04.N1.new", "part %q is in the saved package but not in the opened one, and no accepted call of the history creates such a part (calls: %s; content type after save: %q declared=%v; related from: %s)",
+				name, strings.Join(shape, ","), ct, hasCT, relatedFrom(Q, name))
 		}
 	}
 	// ---- N2: same content type
@@ -680,16 +766,11 @@ func run(c Case) *kit.Result {
 			if n5 == "prefix" {
 				how = "the edits only appended, the text of the opened package must be a prefix of the saved text"
 			}
-			re, _ := cellOrderItems(P.Parts["word/document.xml"])
-			_, reordered, loss := textLoss(items, re, tq, n5 == "equal", openCats())
-			if reordered {
-				// nothing (more) is lost, but text moved: the order is the one a writer produces that emits a cell's own
-				// paragraphs before the cell's nested tables
-				res.Fail("C04.N5.cell-order", "%s: cells that hold a nested table before a paragraph are written back with their paragraphs first, the w:t text is kept but its order changes: %q before, %q after", how, clip(tp), clip(tq))
-			}
+			// strict document order: text that moved is lost at its place
+			_, loss := textLoss(items, tq, n5 == "equal", openCats())
 			for _, cat := range loss {
 				if cat == "other" {
-					res.Fail("C04.N5.other", "%s: %d w:t / %q before, %d w:t / %q after; not explained by losing only nested / multi-w:t text%s", how, len(items), clip(tp), ntq, clip(tq), lostHint(c.Pkg, tq))
+					res.Fail("C04.N5.other", "%s: %d w:t / %q before, %d w:t / %q after; not explained by losing only nested / multi-w:t text%s%s", how, len(items), clip(tp), ntq, clip(tq), lostHint(c.Pkg, tq), orderHint(tp, tq, n5 == "equal"))
 				} else {
 					res.Fail("C04.N5."+cat, "%s, but text of w:t in class %s is lost (%s): %d w:t / %q before, %d w:t / %q after", how, cat, firstOf(items, cat), len(items), clip(tp), ntq, clip(tq))
 				}
@@ -759,23 +840,75 @@ func lostHint(p foreign.Package, after string) string {
 	return ""
 }
 
+// libraryOwn: parts the library writes into every package it saves when the package lacks them (its regenerated
+// set for a package without them): a document always gets a styles part.
+var libraryOwn = map[string]bool{"word/styles.xml": true}
+
+// newPartExplained says why a part of the saved package that the opened one did not have may be there ("" = no reason).
+func newPartExplained(name string, P, Q *opc.Package, accepted []ops.Op, ext map[string]bool) string {
+	if opc.IsRelsPart(name) {
+		// the relationship part of a part: explained when its source is a new part that is explained itself, or a
+		// part of the regenerated core (main part / package)
+		src := opc.SourceOf(name)
+		if src == "" || src == "word/document.xml" {
+			return "relationships of the core"
+		}
+		if _, had := P.Parts[src]; !had {
+			if _, has := Q.Parts[src]; has && newPartExplained(src, P, Q, accepted, ext) != "" {
+				return "relationships of an explained new part"
+			}
+		}
+		return ""
+	}
+	if libraryOwn[name] {
+		return "written by the library into every package"
+	}
+	for _, op := range accepted {
+		if explainsNew(op, name) {
+			return "created by " + op.K
+		}
+	}
+	return ""
+}
+
+// relatedFrom lists the relationship parts of the saved package that have a relationship resolving to the part.
+func relatedFrom(Q *opc.Package, name string) string {
+	var from []string
+	for rn, rels := range Q.Rels {
+		for _, r := range rels {
+			if !r.External() && r.Resolved == name {
+				from = append(from, rn+"#"+r.ID)
+			}
+		}
+	}
+	sort.Strings(from)
+	if len(from) == 0 {
+		return "nowhere"
+	}
+	return strings.Join(from, " ")
+}
+
 func TestC04(t *testing.T) {
 	kit.Main(t, kit.Spec[Case]{
 		ID: "C04", Level: "exploration",
-		Rule: "a generated foreign package (independent writer: namespace prefixes, extra parts with own relationship parts, external relationships, id shapes, media names, nested runs, multi-w:t runs, tables, section breaks; in a third of the packages inline OMML formulas - m:oMath / m:oMathPara, one or two per paragraph, between the text runs or inside a run container, m: or another prefix declared on the document element or on the formula) x an edit history between Open/OpenFromMemory and Save/ToBytes: none (about 20 %), or 1-8 (thorough 1-14) generated edit calls, optionally read-only style-manager lookups, header/footer calls on packages that bring header/footer parts (their relationship targets also spelled /word/x or ./x), and - when the package holds image<K> media that the main part does not relate to - pictures of the formats that a counter looking only at the main part would write under those names; " +
+		Rule: "a generated foreign package (independent writer: namespace prefixes, extra parts with own relationship parts, external relationships, id shapes, media names, nested runs, multi-w:t runs, tables, section breaks; in a third of the packages inline OMML formulas - m:oMath / m:oMathPara, one or two per paragraph, between the text runs or inside a run container, m: or another prefix declared on the document element or on the formula) x an edit history between Open/OpenFromMemory and Save/ToBytes: none (about 10 %), or 1-8 (thorough 1-14) generated edit calls, optionally read-only style-manager lookups, header/footer calls on packages that bring header/footer parts (their relationship targets also spelled /word/x or ./x), and - when the package holds image<K> media that the main part does not relate to - pictures of the formats that a counter looking only at the main part would write under those names; in half of the cases 1-3 calls the library may reject, anywhere in the history (RemoveFootnote/RemoveEndnote with ids the package has or lacks, RemoveParagraphAt/RemoveElementAt inside and outside the body, AddImageFromFile of a missing file / a file that is no image, AddCellImageFromData / AddImageFromData with bytes that are no image, header/footer calls with a type that is none of default/first/even, SetPageSettings with nil / out-of-range / valid settings, CreateMultiLevelList, SetFootnoteConfig(nil)); in two thirds of the packages the XML text of extra parts is re-spelled (no declaration, declaration and root on one line, CRLF, byte order mark, white space before the root's end tag, newline after it); " +
 			"non-trivial = package has >= 2 extra parts and at least one of {external relationship, run nested in hyperlink/ins/smartTag/sdt, run with several w:t, media name the library would not choose, relationship ids that are not the dense rId1..N}; " +
 			"distinct = distinct (feature set of the package, sequence of (op kind, outcome), entry points)",
 		Gen: genCase, Run: run, Findings: findings, Fixed: fixedCases,
 		Assumptions: []string{
 			"the generated packages are well-formed and self-consistent (self-test of internal/foreign: own OPC reader, own well-formedness checker, description == rendered bytes)",
-			"parts an executed edit rewrites by design (the header/footer part the package's sections reference for the kind that is set, numbering after a list call, footnotes/endnotes after a note call, settings after SetFootnoteConfig, docProps after a properties call) join the regenerated set and are not compared",
-			"the edits never touch content that came with the package, except RemoveParagraphAt/RemoveElementAt, after which the text clause is not evaluated",
+			"only a call the library ACCEPTED (no error / true) is an edit: a rejected call puts nothing into the regenerated set, explains no new part, and a rejected removal does not suspend the text clause",
+			"a part of the saved package that the opened one lacks must be one an accepted call creates (media for a picture call, header/footer part for a header/footer call, numbering for a list call, the notes part for a note call, settings for the note configuration, docProps for a property call) or word/styles.xml, which the library writes into every package that has none",
+			"parts an accepted edit rewrites by design (the header/footer part the package's sections reference for the kind that is set, numbering after a list call, footnotes/endnotes after a note call, settings after SetFootnoteConfig, docProps after a properties call) join the regenerated set and are not compared",
+			"the edits never touch content that came with the package, except an ACCEPTED RemoveParagraphAt/RemoveElementAt, after which the text clause is not evaluated; the text clause demands strict document order (text that moved is lost at its place)",
 			"a refused Open or a failed Save loses nothing and is counted, not judged",
 		},
 		MustSee: map[string]float64{"pkg:" + foreign.FExtRel: 0.05, "feat:nested-run": 0.05, "pkg:" + foreign.FMultiT: 0.05, "pkg:" + foreign.FMediaOddName: 0.05,
 			"feat:non-dense-ids": 0.05, "edits:some": 0.5, "feat:custom-prefix": 0.1, "edits:images-added": 0.1,
 			"pkg:" + foreign.FMediaOtherHighest: 0.15, "edits:images-added-below-other-parts-media": 0.1, "edits:style-lookup": 0.15, "op:pstyle": 0.02, "op:customstyle": 0.01,
 			"pkg:" + foreign.FMathTopTextOne: 0.1, "pkg:" + foreign.FMathTextTwo: 0.03, "pkg:" + foreign.FMathOnly: 0.05, "pkg:" + foreign.FMathPara: 0.05,
-			"edits:header-footer-set-on-package-with-own": 0.1, "pkg:rel:dot-slash-target": 0.01},
+			"edits:header-footer-set-on-package-with-own": 0.1, "pkg:rel:dot-slash-target": 0.01,
+			"edits:some-rejected": 0.25, "rejected:rmfootnote": 0.1, "rejected:rmendnote": 0.04, "rejected:rmparaat": 0.02, "rejected:rmelemat": 0.02, "rejected:imagefilebad": 0.03, "rejected:pagesettings": 0.02, "rejected:cellimgbad": 0.02, "edits:none": 0.05,
+			"edits:note-removal-on-package-with-notes": 0.05, "pkg:text:respelled": 0.3, "pkg:text:crlf": 0.05, "pkg:text:bom": 0.05, "pkg:text:nodecl": 0.05, "pkg:text:nl-before-root-end": 0.05},
 	})
 }
